@@ -236,6 +236,31 @@ func (rn *run) checkFile(cfg config) {
 		}
 		putStream(w.Alloc(), func() pdf.Object { return pdf.Dict{"D": fresh(d)} }, body)
 	}
+	// look-alikes: ordinary objects whose dictionaries look like the exempt ones (metadata stream, cross-reference
+	// stream, object stream, embedded file, /Encrypt dictionary, /ID, signature): all must be stored encrypted
+	{
+		m1, m2, m3, m4, m5, m6, m7 := mk("lookmeta"), mk("lookxref"), mk("lookobjstm"), mk("lookef"), mk("lookenc"), mk("looksig"), mk("lookid")
+		o32 := append(append([]byte{}, m5...), make([]byte, 32)...)[:32]
+		xmp := []byte("<?xpacket begin='' id='W5M0MpCehiHzreSzNTczkc9d'?><x:xmpmeta xmlns:x='adobe:ns:meta/'>" + string(m1) + "</x:xmpmeta><?xpacket end='w'?>")
+		putStream(w.Alloc(), func() pdf.Object {
+			return pdf.Dict{"Type": pdf.Name("Metadata"), "Subtype": pdf.Name("XML"), "LK": fresh(m1)}
+		}, xmp)
+		putStream(w.Alloc(), func() pdf.Object {
+			return pdf.Dict{"Type": pdf.Name("XRef"), "Size": pdf.Integer(1), "W": pdf.Array{pdf.Integer(1), pdf.Integer(1), pdf.Integer(1)}, "LK": fresh(m2)}
+		}, append([]byte{0, 0, 0}, m2...))
+		putStream(w.Alloc(), func() pdf.Object {
+			return pdf.Dict{"Type": pdf.Name("ObjStm"), "N": pdf.Integer(0), "First": pdf.Integer(0), "LK": fresh(m3)}
+		}, append([]byte{}, m3...))
+		putStream(w.Alloc(), func() pdf.Object {
+			return pdf.Dict{"Type": pdf.Name("EmbeddedFile"), "Params": pdf.Dict{"CheckSum": fresh(m4)}}
+		}, append([]byte{}, m4...))
+		put(w.Alloc(), func() pdf.Object {
+			return pdf.Dict{"Filter": pdf.Name("Standard"), "V": pdf.Integer(4), "R": pdf.Integer(4), "O": fresh(o32), "U": fresh(o32), "P": pdf.Integer(-44),
+				"Sig": pdf.Dict{"Type": pdf.Name("Sig"), "Filter": pdf.Name("Adobe.PPKLite"), "Contents": fresh(m6), "ByteRange": pdf.Array{pdf.Integer(0), pdf.Integer(1)}},
+				"ID": pdf.Array{fresh(id0), fresh(id0), fresh(m7)}}
+		})
+	}
+
 	// empty streams (written through OpenStream with no Write at all, with a zero-length Write, and as a stream
 	// object) and empty strings in every placement
 	{
@@ -484,6 +509,12 @@ func (rn *run) checkFile(cfg config) {
 		}
 		wobs[k] = v
 	}
+	containers := map[pdf.Reference]bool{}
+	for _, c := range inStm {
+		if c != 0 {
+			containers[c] = true
+		}
+	}
 	for i, ref := range refs {
 		o := byRef[ref]
 		if inStm[i] != 0 {
@@ -500,14 +531,12 @@ func (rn *run) checkFile(cfg config) {
 		var rawS [][]byte
 		collectStrings(rawObj, &rawS)
 		stm, isStream := rawObj.(*pdf.Stream)
+		// the kind of an object is a matter of its IDENTITY (is it the container some cross-reference entry
+		// points into, is it the catalog's /Metadata), never of what its dictionary looks like; the
+		// cross-reference stream is not listed in itself and is located through startxref below
 		kind := "direct"
-		if isStream {
-			switch stm.Dict["Type"] {
-			case pdf.Name("XRef"):
-				kind = "xref"
-			case pdf.Name("ObjStm"):
-				kind = "container"
-			}
+		if isStream && containers[ref] {
+			kind = "container"
 		}
 		if ref == metaRef && metaRef != 0 {
 			kind = "metadata"
